@@ -23,9 +23,9 @@ import (
 	"github.com/tigerwill90/fox"
 )
 
-const rule = "cases = (call sequence over {WriteHeader 100/150/101/200/404/500, Write 0/3 bytes, WriteString, ReadFrom with sources of 0/1/5 bytes and sources failing after 0/2 bytes, Flush}, " +
+const rule = "cases = (call sequence over {WriteHeader 100/150/101/200/404/500, Write 0/3 bytes, WriteString, ReadFrom with sources of 0/1/5 bytes and sources failing after 0/2 bytes, sources returning their last bytes together with EOF / with their error, Flush}, " +
 	"underlying writer capability set in {plain, +ReaderFrom, +Flusher, +both}, underlying writer failing after k in {never,0,2,4} body bytes); all sequences up to a bounded length are enumerated, random longer ones; " +
-	"distinct by (sequence, capability set, k); non-trivial when the sequence contains a body operation or more than one header call"
+	"plus a successful Hijack followed by ordinary requests on the recycled context; distinct by (sequence, capability set, k); non-trivial when the sequence contains a body operation or more than one header call"
 
 var opNames = []string{"WH100", "WH150", "WH101", "WH200", "WH404", "WH500", "W0", "W3", "WS3", "RF0", "RF1", "RF5", "RFfail2", "RFfail0", "Flush", "RF5eof", "RFfail2now"}
 
@@ -425,7 +425,7 @@ func main() {
 	})
 	run.SetExtra("exhaustive_subspace", fmt.Sprintf("all call sequences of length 1..%d over %d operations x 4 capability sets x 4 underlying failure points: enumerated completely", maxLen, nOps))
 	// random longer sequences
-	n := run.Pick(2000, 200000)
+	n := run.Pick(2000, 1000000)
 	run.Parallel(n/100, func(b int) {
 		r := run.Rand(uint64(b))
 		f := routerWithSeq()
@@ -674,6 +674,31 @@ func helpers(run *kit.Run) {
 			return c.Stream(code, "text/x-stream", strings.NewReader(strings.Repeat("s", 70000)))
 		}, code, "text/x-stream", strings.Repeat("s", 70000), "", nil})
 	}
+	// formats and operands: String renders like fmt.Sprintf whatever the number of operands
+	for _, fc := range []struct {
+		format string
+		args   []any
+	}{{"progress: 100%% done", nil}, {"%d%%", []any{5}}, {"plain", nil}, {"%s", []any{"100% sure"}}, {"%%", nil}, {"a%%b%%c %v", []any{true}}, {"%5.2f|%-4s|%q", []any{3.14159, "ab", "q"}}, {"tab\tnl\n", nil}} {
+		fc := fc
+		cases = append(cases, hc{fmt.Sprintf("String format %q with %d operands", fc.format, len(fc.args)), func(c fox.Context) error { return c.String(202, fc.format, fc.args...) }, 202, "text/plain; charset=UTF-8", fmt.Sprintf(fc.format, fc.args...), "", nil})
+	}
+	// a Content-Type staged earlier (by a middleware or the handler itself) is replaced by the one Blob / Stream are given
+	for _, staged := range []string{"application/json", "text/plain; charset=UTF-8", "image/png"} {
+		staged := staged
+		cases = append(cases, hc{"Blob after Content-Type " + staged + " was staged", func(c fox.Context) error {
+			c.SetHeader("Content-Type", staged)
+			return c.Blob(200, "application/x-verif", []byte("blob"))
+		}, 200, "application/x-verif", "blob", "", nil})
+		cases = append(cases, hc{"Stream after Content-Type " + staged + " was staged", func(c fox.Context) error {
+			c.Writer().Header().Set("Content-Type", staged)
+			return c.Stream(201, "text/x-stream", strings.NewReader("stream"))
+		}, 201, "text/x-stream", "stream", "", nil})
+	}
+	cases = append(cases, hc{"Blob empty body", func(c fox.Context) error { return c.Blob(200, "application/x-verif", nil) }, 200, "application/x-verif", "", "", nil})
+	cases = append(cases, hc{"Blob 300000 bytes", func(c fox.Context) error { return c.Blob(200, "application/x-verif", []byte(strings.Repeat("b", 300000))) }, 200, "application/x-verif", strings.Repeat("b", 300000), "", nil})
+	cases = append(cases, hc{"Stream from an eager-EOF reader", func(c fox.Context) error {
+		return c.Stream(200, "text/x-stream", &failingReader{data: "eager", eager: true})
+	}, 200, "text/x-stream", "eager", "", nil})
 	for code := 290; code <= 320; code++ {
 		code := code
 		want := hc{name: fmt.Sprintf("Redirect %d", code), do: func(c fox.Context) error { return c.Redirect(code, "http://example.test/next?a=b") }}
